@@ -440,9 +440,17 @@ class Workflow(metaclass=WorkflowMeta):
         validate_resources: bool = False,
         force: bool = False,
     ) -> bool:
-        if self._disable_validation and not force:
-            return False
         stale = self._validated_version != self.__class__._step_functions_version
+        if self._disable_validation and not force:
+            if stale:
+                # @catch_error routing must not depend on graph validation being enabled
+                from .representation.validate import _collect_catch_error_handlers
+
+                self._catch_error_handlers, self._handler_for_step = (
+                    _collect_catch_error_handlers(self._step_configs())
+                )
+                self._validated_version = self.__class__._step_functions_version
+            return False
         if not force and not stale and self._validation_result is not None:
             return self._validation_result
 
